@@ -1,44 +1,604 @@
-use desync::Desync;
-use std::sync::Arc;
-use vsched::rt::{self, Chooser, Config, StepInfo, TaskId};
+//! dv: property-based checks of the desync properties C01..C17 (see /verif/DESIGN.md).
+//!
+//!   dv check <ID> [--tier quick|thorough] [--cases N] [--workers N] [--strict-harness]
+//!   dv replay <file> [--quiet]
+//!   dv gen <ID> [--n N]            print generated cases (debugging the generators)
 
-struct RoundRobin(usize);
-impl Chooser for RoundRobin {
-    fn choose(&mut self, runnable: &[TaskId], _current: Option<usize>, _info: &StepInfo) -> usize {
-        self.0 = self.0.wrapping_mul(6364136223846793005).wrapping_add(1442695040888963407);
-        (self.0 >> 33) % runnable.len()
+mod case;
+mod gen;
+mod interp;
+mod norm;
+mod oracle;
+mod profiles;
+mod sched;
+mod world;
+
+use case::*;
+use interp::{run_case, Outcome, RunOpts};
+use proptest::strategy::{Strategy, ValueTree};
+use proptest::test_runner::{Config, RngAlgorithm, RngSeed, TestCaseError, TestError, TestRng, TestRunner};
+use serde::{Deserialize, Serialize};
+use std::collections::{BTreeMap, HashSet};
+use std::hash::{Hash, Hasher};
+use std::sync::atomic::{AtomicBool, AtomicU64, Ordering};
+use std::sync::{Arc, Mutex};
+use std::time::Instant;
+use vsched::rt::Status;
+
+#[derive(Serialize, Deserialize, Clone, Debug)]
+struct ReplayFile {
+    property: String,
+    clause: String,
+    detail: String,
+    signature: String,
+    case: Case,
+    trace: Vec<u8>,
+    seed: u64,
+    program: String,
+}
+
+impl ReplayFile {
+    /// Runs the stored case: follows the realised trace; if the tree has changed so that the trace cannot be
+    /// followed any more, falls back to the schedule that originally produced it.
+    fn run(&self, opts: &RunOpts) -> (Case, Outcome) {
+        let mut case = self.case.clone();
+        case.sched = Sched::Trace { choices: self.trace.clone() };
+        let out = run_case(&case, opts);
+        if out.status == Status::Diverged {
+            let case = self.case.clone();
+            let out = run_case(&case, opts);
+            return (case, out);
+        }
+        (case, out)
+    }
+}
+
+#[derive(Serialize, Deserialize, Clone, Debug)]
+struct KnownFinding {
+    status: String,
+    property: String,
+    #[serde(default)]
+    signature: String,
+    #[serde(default)]
+    commit: String,
+    what: String,
+}
+
+fn verif_dir() -> std::path::PathBuf {
+    // the binary lives in /verif/target/release; the checks are run with cwd=/verif
+    std::env::var("DV_HOME").map(std::path::PathBuf::from).unwrap_or_else(|_| std::env::current_dir().unwrap())
+}
+
+fn load_known() -> Vec<KnownFinding> {
+    let p = verif_dir().join("known_findings.jsonl");
+    let mut v = vec![];
+    if let Ok(s) = std::fs::read_to_string(p) {
+        for l in s.lines() {
+            let l = l.trim();
+            if l.is_empty() || l.starts_with('#') {
+                continue;
+            }
+            if let Ok(k) = serde_json::from_str::<KnownFinding>(l) {
+                v.push(k);
+            }
+        }
+    }
+    v
+}
+
+/// Signature of a violation: property | clause | kinds of the operations involved | pool class.
+/// Generic (no per-finding code); used to key known findings.
+fn signature(case: &Case, v: &world::Violation) -> String {
+    let kind = v.op.and_then(|id| find_op_kind(case, id)).unwrap_or_else(|| "-".to_string());
+    format!("{}|{}|{}|pool{}", v.prop, v.clause, kind, if case.cfg.pool == 0 { "0" } else { ">0" })
+}
+
+fn find_op_kind(case: &Case, id: OpId) -> Option<String> {
+    fn in_steps(steps: &[Step], id: OpId) -> Option<String> {
+        for s in steps {
+            match s {
+                Step::NestedDesync { id: i, body, .. } => {
+                    if *i == id {
+                        return Some("nested-desync".into());
+                    }
+                    if let Some(k) = in_steps(body, id) {
+                        return Some(k);
+                    }
+                }
+                Step::NestedSync { id: i, body, .. } => {
+                    if *i == id {
+                        return Some("nested-sync".into());
+                    }
+                    if let Some(k) = in_steps(body, id) {
+                        return Some(k);
+                    }
+                }
+                Step::NestedFutDesync { id: i, body, .. } | Step::AwaitFutDesync { id: i, body, .. } => {
+                    if *i == id {
+                        return Some("nested-future_desync".into());
+                    }
+                    if let Some(k) = in_steps(body, id) {
+                        return Some(k);
+                    }
+                }
+                Step::AwaitFutSync { id: i, body, .. } => {
+                    if *i == id {
+                        return Some("nested-future_sync".into());
+                    }
+                    if let Some(k) = in_steps(body, id) {
+                        return Some(k);
+                    }
+                }
+                _ => {}
+            }
+        }
+        None
+    }
+    for ph in case.phases.iter() {
+        for c in ph.callers.iter() {
+            for op in c.iter() {
+                let (i, name, body): (OpId, &str, &[Step]) = match op {
+                    Op::Desync { id, body, .. } => (*id, "desync", body),
+                    Op::Sync { id, body, .. } => (*id, "sync", body),
+                    Op::TrySync { id, body, .. } => (*id, "try_sync", body),
+                    Op::FutDesync { id, body, .. } => (*id, "future_desync", body),
+                    Op::FutSync { id, body, .. } => (*id, "future_sync", body),
+                    Op::After { id, body, .. } => (*id, "after", body),
+                    Op::PipeIn { id, body, .. } => (*id, "pipe_in", body),
+                    Op::Pipe { id, body, .. } => (*id, "pipe", body),
+                    Op::Suspend { id, .. } => (*id, "suspend", &[]),
+                    Op::Attempt { id, .. } => (*id, "attempt", &[]),
+                    _ => continue,
+                };
+                if i == id {
+                    return Some(name.to_string());
+                }
+                if let Some(k) = in_steps(body, id) {
+                    return Some(k);
+                }
+            }
+        }
+    }
+    Some("pipe-item".into())
+}
+
+fn hash_case(case: &Case, trace: &[u8]) -> u64 {
+    let mut h = std::collections::hash_map::DefaultHasher::new();
+    // the schedule is represented by its realised trace
+    let s = serde_json::to_string(&(&case.cfg, &case.phases)).unwrap_or_default();
+    s.hash(&mut h);
+    trace.hash(&mut h);
+    h.finish()
+}
+
+fn mix(seed: u64, worker: u64) -> [u8; 32] {
+    let mut out = [0u8; 32];
+    let mut x = seed.wrapping_mul(0x9E3779B97F4A7C15).wrapping_add(worker.wrapping_mul(0xBF58476D1CE4E5B9)).wrapping_add(0x1234_5678_9abc_def1);
+    for i in 0..4 {
+        x ^= x >> 30;
+        x = x.wrapping_mul(0xBF58476D1CE4E5B9);
+        x ^= x >> 27;
+        x = x.wrapping_mul(0x94D049BB133111EB);
+        x ^= x >> 31;
+        out[i * 8..i * 8 + 8].copy_from_slice(&x.to_le_bytes());
+    }
+    out
+}
+
+#[derive(Default)]
+struct WorkerStats {
+    evaluations: u64,
+    nontrivial: u64,
+    hashes: HashSet<u64>,
+    labels: BTreeMap<String, u64>,
+    other_oracle: BTreeMap<String, u64>,
+    step_bound: u64,
+    harness: u64,
+    ambiguous: u64,
+    saturated: u64,
+    excluded_known: u64,
+    steps: u64,
+    samples: Vec<serde_json::Value>,
+    harness_samples: Vec<String>,
+}
+
+struct Found {
+    raw: Case,
+    reason: String,
+}
+
+fn violations_for<'a>(out: &'a Outcome, id: &str) -> Vec<&'a world::Violation> {
+    out.violations.iter().filter(|v| v.prop == id).collect()
+}
+
+fn run_worker(id: &str, oracle_id: &str, seed: u64, worker: u64, cases: u32, stop: Arc<AtomicBool>, strict_harness: bool, known: Arc<Vec<KnownFinding>>, progress: Arc<AtomicU64>) -> (WorkerStats, Option<Found>) {
+    let prof = profiles::profile(id);
+    let strat = gen::case_strategy(&prof);
+    let allow_panic = prof.shape == gen::Shape::Panic;
+    let mut stats = WorkerStats::default();
+    let counting = std::cell::Cell::new(true);
+    let stats_cell = std::cell::RefCell::new(&mut stats);
+    let cfg = Config { cases, failure_persistence: None, max_shrink_iters: 3000, max_global_rejects: 100_000, rng_algorithm: RngAlgorithm::ChaCha, rng_seed: RngSeed::Fixed(seed), ..Config::default() };
+    let rng = TestRng::from_seed(RngAlgorithm::ChaCha, &mix(seed, worker));
+    let mut runner = TestRunner::new_with_rng(cfg, rng);
+    let opts = RunOpts::default();
+    let nopts = norm::NormOpts { allow_panic };
+    let id_owned = oracle_id.to_string();
+    let prof_id = id.to_string();
+    let result = runner.run(&strat, |raw| {
+        if stop.load(Ordering::Relaxed) && counting.get() {
+            return Ok(());
+        }
+        let case = norm::normalize(&raw, &nopts);
+        if case.op_count() == 0 {
+            return Ok(());
+        }
+        let out = run_case(&case, &opts);
+        let mine = violations_for(&out, &id_owned);
+        // known findings are excluded (counted) so that the search continues behind them
+        let mine: Vec<&world::Violation> = mine.into_iter().filter(|v| {
+            let sig = signature(&case, v);
+            !known.iter().any(|k| k.status == "open" && k.signature == sig)
+        }).collect();
+        if counting.get() {
+            let mut st = stats_cell.borrow_mut();
+            st.evaluations += 1;
+            st.steps += out.steps;
+            progress.fetch_add(1, Ordering::Relaxed);
+            let nt = profiles::nontrivial(&prof_id, &case, &out);
+            let h = hash_case(&case, &out.trace);
+            if nt && st.hashes.insert(h) {
+                st.nontrivial += 1;
+                if st.samples.len() < 2 && worker == 0 {
+                    st.samples.push(serde_json::json!({
+                        "program": case.pretty(),
+                        "trace_prefix": out.trace.iter().take(40).collect::<Vec<_>>(),
+                        "trace_len": out.trace.len(),
+                        "steps": out.steps,
+                        "status": format!("{:?}", out.status),
+                        "classes": profiles::labels(&id_owned, &case, &out),
+                    }));
+                }
+            }
+            for l in profiles::labels(&id_owned, &case, &out) {
+                *st.labels.entry(l).or_insert(0) += 1;
+            }
+            if out.status == Status::StepBound {
+                st.step_bound += 1;
+            }
+            for v in out.violations.iter() {
+                if v.prop == "HARNESS" {
+                    st.harness += 1;
+                    if st.harness_samples.len() < 3 {
+                        st.harness_samples.push(format!("{}\n{}", v.detail, case.pretty()));
+                    }
+                } else if v.prop == "AMBIG" {
+                    st.ambiguous += 1;
+                } else if v.prop == "SATURATED" {
+                    st.saturated += 1;
+                } else if v.prop != id_owned {
+                    *st.other_oracle.entry(format!("{}:{}", v.prop, v.clause)).or_insert(0) += 1;
+                }
+            }
+            let all_mine = violations_for(&out, &id_owned).len();
+            if all_mine > mine.len() {
+                st.excluded_known += 1;
+            }
+        }
+        if let Some(v) = mine.first() {
+            counting.set(false);
+            stop.store(true, Ordering::Relaxed);
+            return Err(TestCaseError::fail(format!("{}|{}", v.prop, v.clause)));
+        }
+        if strict_harness && out.violations.iter().any(|v| v.prop == "HARNESS") {
+            counting.set(false);
+            stop.store(true, Ordering::Relaxed);
+            return Err(TestCaseError::fail("HARNESS".to_string()));
+        }
+        Ok(())
+    });
+    drop(stats_cell);
+    match result {
+        Ok(()) => (stats, None),
+        Err(TestError::Fail(reason, raw)) => (stats, Some(Found { raw, reason: reason.message().to_string() })),
+        Err(TestError::Abort(r)) => {
+            eprintln!("worker {} aborted: {}", worker, r.message());
+            (stats, None)
+        }
+    }
+}
+
+fn write_replay(id: &str, case: &Case, out: &Outcome, v: &world::Violation, seed: u64, dir: &std::path::Path) -> std::path::PathBuf {
+    let sig = signature(case, v);
+    let rf = ReplayFile { property: v.prop.clone(), clause: v.clause.clone(), detail: v.detail.clone(), signature: sig, case: case.clone(), trace: out.trace.clone(), seed, program: case.pretty() };
+    let body = serde_json::to_string_pretty(&rf).unwrap();
+    let mut h = std::collections::hash_map::DefaultHasher::new();
+    body.hash(&mut h);
+    let _ = std::fs::create_dir_all(dir);
+    let path = dir.join(format!("{}-{:016x}.json", id, h.finish()));
+    std::fs::write(&path, body).expect("write replay file");
+    path
+}
+
+fn print_outcome(case: &Case, out: &Outcome) {
+    println!("{}", case.pretty());
+    println!("status: {:?}, steps: {}, trace: {} decisions", out.status, out.steps, out.trace.len());
+    if !out.history.is_empty() {
+        println!("--- stamped history");
+        for h in out.history.iter() {
+            println!("{}", h);
+        }
+    }
+    println!("--- tasks");
+    for t in out.tasks.iter() {
+        println!("  task {} '{}' {:?} blocking_calls={} steps={}", t.id, t.name, t.state, t.blocking_calls, t.local_steps);
+        if let Some(m) = &t.panic_msg {
+            println!("      panicked: {}", m.lines().next().unwrap_or(""));
+        }
+        if let Some(bt) = &t.blocked_bt {
+            for l in bt.lines().take(14) {
+                println!("      {}", l);
+            }
+        }
+    }
+    println!("--- violations");
+    for v in out.violations.iter() {
+        println!("  {} {} obj={:?} op={:?}: {}", v.prop, v.clause, v.obj, v.op, v.detail);
+    }
+}
+
+/// exit code: 0 held, 1 violation reproduced, 2 could not decide
+fn cmd_replay(path: &str, quiet: bool) -> i32 {
+    let body = match std::fs::read_to_string(path) {
+        Ok(b) => b,
+        Err(e) => {
+            eprintln!("cannot read {}: {}", path, e);
+            return 2;
+        }
+    };
+    let rf: ReplayFile = match serde_json::from_str(&body) {
+        Ok(r) => r,
+        Err(e) => {
+            eprintln!("cannot parse {}: {}", path, e);
+            return 2;
+        }
+    };
+    let (case, out) = rf.run(&RunOpts { record_history: !quiet, backtraces: !quiet, verbose: false, ..Default::default() });
+    if !quiet {
+        print_outcome(&case, &out);
+    }
+    let mine = violations_for(&out, &rf.property);
+    if !mine.is_empty() {
+        println!("REPRODUCED property={} clause={} ({})", rf.property, mine[0].clause, path);
+        return 1;
+    }
+    match out.status {
+        Status::Completed => {
+            println!("HELD property={} on replay {} ({} steps)", rf.property, path, out.steps);
+            0
+        }
+        Status::Aborted(_) => {
+            println!("HELD property={} on replay {} (other oracles: {:?})", rf.property, path, out.violations.iter().map(|v| format!("{}:{}", v.prop, v.clause)).collect::<Vec<_>>());
+            0
+        }
+        s => {
+            println!("INCONCLUSIVE property={} replay {} status {:?}", rf.property, path, s);
+            2
+        }
+    }
+}
+
+fn cmd_check(id: &str, tier: &str, cases_override: Option<u32>, workers: usize, strict_harness: bool, oracle_id: Option<String>) -> i32 {
+    let oracle_id = oracle_id.unwrap_or_else(|| id.to_string());
+    let t0 = Instant::now();
+    let seed: u64 = std::env::var("VERIF_SEED").ok().and_then(|s| s.parse::<i64>().ok()).map(|v| v as u64).unwrap_or(0);
+    let home = verif_dir();
+    let known = Arc::new(load_known());
+    let mut printed_known: HashSet<String> = HashSet::new();
+    let mut violation_line: Option<String> = None;
+    // 1. replay corpus
+    let mut replayed = 0;
+    let rdir = home.join("replays").join(id);
+    if let Ok(rd) = std::fs::read_dir(&rdir) {
+        let mut files: Vec<_> = rd.filter_map(|e| e.ok()).map(|e| e.path()).filter(|p| p.extension().map(|x| x == "json").unwrap_or(false)).collect();
+        files.sort();
+        for f in files {
+            let body = std::fs::read_to_string(&f).unwrap_or_default();
+            if let Ok(rf) = serde_json::from_str::<ReplayFile>(&body) {
+                replayed += 1;
+                let (case, out) = rf.run(&RunOpts::default());
+                for v in violations_for(&out, id) {
+                    let sig = signature(&case, v);
+                    if let Some(k) = known.iter().find(|k| k.status == "open" && k.signature == sig) {
+                        if printed_known.insert(sig.clone()) {
+                            println!("KNOWN-FINDING: property={} {}", id, k.what);
+                        }
+                    } else if violation_line.is_none() {
+                        violation_line = Some(format!("VIOLATION property={} replay={}", id, f.display()));
+                        println!("  {} {}: {}", v.prop, v.clause, v.detail);
+                    }
+                }
+            }
+        }
+    }
+    // 2. generated search
+    let cases = cases_override.unwrap_or(match tier {
+        "thorough" => 400_000,
+        _ => 12_000,
+    });
+    let stop = Arc::new(AtomicBool::new(false));
+    let progress = Arc::new(AtomicU64::new(0));
+    let results: Arc<Mutex<Vec<(WorkerStats, Option<Found>)>>> = Arc::new(Mutex::new(vec![]));
+    let mut hs = vec![];
+    for wk in 0..workers {
+        let (stop, results, known, progress) = (stop.clone(), results.clone(), known.clone(), progress.clone());
+        let id = id.to_string();
+        let oracle_id = oracle_id.clone();
+        hs.push(
+            std::thread::Builder::new()
+                .stack_size(16 * 1024 * 1024)
+                .spawn(move || {
+                    let r = run_worker(&id, &oracle_id, seed, wk as u64, cases, stop, strict_harness, known, progress);
+                    results.lock().unwrap().push(r);
+                })
+                .unwrap(),
+        );
+    }
+    for h in hs {
+        let _ = h.join();
+    }
+    let mut results = std::mem::take(&mut *results.lock().unwrap());
+    // 3. aggregate
+    let mut agg = WorkerStats::default();
+    let mut found: Vec<Found> = vec![];
+    for (st, f) in results.drain(..) {
+        agg.evaluations += st.evaluations;
+        agg.steps += st.steps;
+        agg.step_bound += st.step_bound;
+        agg.harness += st.harness;
+        agg.ambiguous += st.ambiguous;
+        agg.saturated += st.saturated;
+        agg.excluded_known += st.excluded_known;
+        for h in st.hashes {
+            agg.hashes.insert(h);
+        }
+        for (k, v) in st.labels {
+            *agg.labels.entry(k).or_insert(0) += v;
+        }
+        for (k, v) in st.other_oracle {
+            *agg.other_oracle.entry(k).or_insert(0) += v;
+        }
+        agg.samples.extend(st.samples);
+        agg.harness_samples.extend(st.harness_samples);
+        if let Some(f) = f {
+            found.push(f);
+        }
+    }
+    let mut violations = 0;
+    if let Some(f) = found.into_iter().min_by_key(|f| serde_json::to_string(&f.raw).map(|s| s.len()).unwrap_or(usize::MAX)) {
+        let allow_panic = profiles::profile(id).shape == gen::Shape::Panic;
+        let case = norm::normalize(&f.raw, &norm::NormOpts { allow_panic });
+        let out = run_case(&case, &RunOpts { record_history: true, ..Default::default() });
+        if f.reason == "HARNESS" {
+            println!("HARNESS-DEFECT (not a violation): unexplained hang; shrunk case follows");
+            print_outcome(&case, &out);
+        } else if let Some(v) = violations_for(&out, &oracle_id).first() {
+            violations = 1;
+            let path = write_replay(id, &case, &out, v, seed, &rdir);
+            println!("--- shrunk failing case for {} ---", id);
+            print_outcome(&case, &out);
+            if violation_line.is_none() {
+                violation_line = Some(format!("VIOLATION property={} replay={}", id, path.display()));
+            }
+        } else {
+            println!("note: a worker reported {} but the shrunk case did not reproduce it (non-determinism in the harness?)", f.reason);
+        }
+    }
+    for k in known.iter().filter(|k| k.status == "open" && k.property == id) {
+        if agg.excluded_known > 0 && printed_known.insert(k.signature.clone()) {
+            println!("KNOWN-FINDING: property={} {}", id, k.what);
+        }
+    }
+    let wall = t0.elapsed().as_secs_f64();
+    // 4. evidence
+    let distinct = agg.hashes.len() as u64;
+    let evidence = serde_json::json!({
+        "property_id": id,
+        "tier": if tier == "thorough" { "thorough" } else { "quick" },
+        "seed": seed as i64,
+        "level": "exploration",
+        "coverage": {
+            "evaluations": agg.evaluations,
+            "distinct_nontrivial": distinct,
+            "rule": profiles::rule_text(id),
+            "samples": agg.samples.iter().take(4).collect::<Vec<_>>(),
+            "class_histogram": agg.labels,
+            "scheduling_decisions": agg.steps,
+            "inconclusive_step_bound": agg.step_bound,
+            "harness_unexplained_hangs": agg.harness,
+            "ambiguous_attributions": agg.ambiguous,
+            "inconclusive_pool_exhausted_by_generated_program": agg.saturated,
+            "other_oracle_failures": agg.other_oracle,
+            "excluded_known": agg.excluded_known,
+            "replayed_corpus": replayed,
+            "workers": workers,
+            "cases_per_worker": cases,
+            "executions_per_s": if wall > 0.0 { (agg.evaluations as f64 / wall) as u64 } else { 0 },
+            "exhaustive": false
+        },
+        "assumptions": [
+            "interleavings are explored at the granularity of Mutex/Condvar/park/unpark/spawn/join/mpsc operations; atomics inside the futures crate execute atomically; no weak-memory effects",
+            "generated-input search never establishes absence: bounds are <=4 objects, <=4 callers, pool 0..3, <=~30 operations, <=300 explicit schedule choices followed by a deterministic tail",
+            "the vsched primitives implement a subset of the behaviours std documents (no fairness, lost notifications, optional spurious wake-ups), so every explored execution is one real threads can produce",
+            "executions cut off by the step bound count as inconclusive, never as violations"
+        ],
+        "wall_s": wall,
+        "violations": violations
+    });
+    let edir = home.join("evidence");
+    let _ = std::fs::create_dir_all(&edir);
+    std::fs::write(edir.join(format!("{}.json", id)), serde_json::to_string_pretty(&evidence).unwrap()).expect("write evidence");
+    println!(
+        "{} {}: {} cases, {} distinct non-trivial, {} step-bound, {} harness-unexplained, {} ambiguous, {} pool-exhausted, other oracles {:?}, {:.1}s ({} exec/s)",
+        id,
+        tier,
+        agg.evaluations,
+        distinct,
+        agg.step_bound,
+        agg.harness,
+        agg.ambiguous,
+        agg.saturated,
+        agg.other_oracle,
+        wall,
+        if wall > 0.0 { (agg.evaluations as f64 / wall) as u64 } else { 0 }
+    );
+    if agg.harness > 0 {
+        println!("WARNING: {} unexplained hangs (harness defect, not counted as violations). First sample:\n{}", agg.harness, agg.harness_samples.first().cloned().unwrap_or_default());
+    }
+    if let Some(l) = violation_line {
+        println!("{}", l);
+        return 1;
+    }
+    0
+}
+
+fn cmd_gen(id: &str, n: usize) {
+    let prof = profiles::profile(id);
+    let strat = gen::case_strategy(&prof);
+    let allow_panic = prof.shape == gen::Shape::Panic;
+    let mut runner = TestRunner::new_with_rng(Config::default(), TestRng::from_seed(RngAlgorithm::ChaCha, &mix(1, 1)));
+    for _ in 0..n {
+        let raw = strat.new_tree(&mut runner).unwrap().current();
+        let case = norm::normalize(&raw, &norm::NormOpts { allow_panic });
+        let out = run_case(&case, &RunOpts { record_history: false, ..Default::default() });
+        println!("{}status={:?} steps={} nontrivial={} violations={:?}\n", case.pretty(), out.status, out.steps, profiles::nontrivial(id, &case, &out), out.violations.iter().map(|v| format!("{}:{}", v.prop, v.clause)).collect::<Vec<_>>());
     }
 }
 
 fn main() {
-    let t0 = std::time::Instant::now();
-    let n = 20000;
-    let mut steps = 0;
-    for i in 0..n {
-        let r = rt::run(Config::default(), Box::new(RoundRobin(i)), Box::new(move || {
-            desync::scheduler::scheduler().verif_set_max_threads(0);
-            let d = Arc::new(Desync::new(0u32));
-            let d2 = d.clone();
-            let h = vsched::thread::spawn(move || {
-                
-                d2.sync(|v| *v += 10);
-            });
-            
-            let v = d.sync(|v| *v);
-            h.join().unwrap();
-            let v2 = d.sync(|v| *v);
-            assert!(v2 == 10, "v={} v2={}", v, v2);
-            drop(d);
-            desync::scheduler::scheduler().verif_set_max_threads(0);
-            desync::scheduler::scheduler().despawn_threads_if_overloaded();
-            vsched::drop_exec_locals();
-        }));
-        steps += r.steps;
-        if r.status != rt::Status::Completed || r.unfinished_tasks != 0 {
-            println!("iter {} status {:?} steps {} unfinished {}", i, r.status, r.steps, r.unfinished_tasks);
-            for t in &r.tasks { println!("  {:?}", t); }
-            break;
+    let args: Vec<String> = std::env::args().collect();
+    let get = |name: &str| -> Option<String> { args.iter().position(|a| a == name).and_then(|i| args.get(i + 1).cloned()) };
+    let has = |name: &str| args.iter().any(|a| a == name);
+    let code = match args.get(1).map(|s| s.as_str()) {
+        Some("check") => {
+            let id = args.get(2).cloned().unwrap_or_default();
+            if !profiles::ALL.contains(&id.as_str()) {
+                eprintln!("unknown property {}", id);
+                std::process::exit(2);
+            }
+            let tier = get("--tier").unwrap_or_else(|| std::env::var("VERIF_TIER").unwrap_or_else(|_| "quick".into()));
+            let workers = get("--workers").and_then(|s| s.parse().ok()).unwrap_or(16);
+            cmd_check(&id, &tier, get("--cases").and_then(|s| s.parse().ok()), workers, has("--strict-harness"), get("--oracle"))
         }
-    }
-    println!("{} execs, {} steps, {:?}", n, steps, t0.elapsed());
+        Some("replay") => cmd_replay(args.get(2).map(|s| s.as_str()).unwrap_or(""), has("--quiet")),
+        Some("gen") => {
+            cmd_gen(args.get(2).map(|s| s.as_str()).unwrap_or("C01"), get("--n").and_then(|s| s.parse().ok()).unwrap_or(5));
+            0
+        }
+        _ => {
+            eprintln!("usage: dv check <ID> [--tier quick|thorough] [--cases N] [--workers N] | dv replay <file> [--quiet] | dv gen <ID> [--n N]");
+            2
+        }
+    };
+    std::process::exit(code);
 }
